@@ -3037,7 +3037,7 @@ func (p *Parser) parseDropLocalityGroup(pos token.Pos) *ast.DropLocalityGroup {
 func (p *Parser) parseCreatePlacement(pos token.Pos) *ast.CreatePlacement {
 	p.expectKeywordLike("PLACEMENT")
 	name := p.parseIdent()
-	options := p.parseOptions()
+	options := p.tryParseOptions()
 
 	return &ast.CreatePlacement{
 		Create:  pos,
